@@ -31,7 +31,7 @@ class Arr:
     """Symbolic array.  dims: tuple of labels (None = broadcast axis).  mask: pending boolean
     selection (Poly) from a masked read.  unit: unit tag (Poly) or None when not tracked.
     The value semantics of a Quantity is "the physical quantity" (value * unit atoms)."""
-    __slots__ = ('dims', 'poly', 'mask', 'unit', 'fresh', 'dt', 'xr')
+    __slots__ = ('dims', 'poly', 'mask', 'unit', 'fresh', 'dt', 'xr', 'conv')
 
     def __init__(self, dims, poly, mask=None, unit=None, fresh=False, dt=None):
         self.dims = tuple(dims)
@@ -43,6 +43,8 @@ class Arr:
         # the expression tree the value was computed by (operators and comparisons only, un-normalised), kept when the interpreter
         # runs with track_xr: arithmetic on IEEE infinities / NaN is not polynomial arithmetic, so it is decided on this tree (xreal.py)
         self.xr = None
+        # unit conversions a bound stored into this array has been through since it was read (floating-point: U1 -> U2 -> U1 need not give the number back)
+        self.conv = ()
 
     @property
     def ndim(self):
@@ -50,6 +52,7 @@ class Arr:
 
     def with_(self, **kw):
         a = Arr(self.dims, self.poly, self.mask, self.unit, dt=self.dt)
+        a.conv = self.conv
         if 'poly' not in kw and 'mask' not in kw:
             a.xr = self.xr
         for k, v in kw.items():
@@ -130,6 +133,13 @@ class BoundExt:
 class Shape:
     def __init__(self, dims):
         self.dims = tuple(dims)
+
+
+class Raised(Exception):
+    """a repo function called by the statement being interpreted raises on this configuration"""
+    def __init__(self, fi, node):
+        Exception.__init__(self, fi.qual)
+        self.fi, self.node = fi, node
 
 
 class Interrupt(Exception):
@@ -228,6 +238,8 @@ class Interp:
         if sig[0] == 'return':
             return sig[1]
         if sig[0] == 'raise':
+            if self.depth > 0:
+                raise Raised(fi, sig[1])          # the calling statement raises too
             return Unk('%s always raises on this configuration (line %s)' % (fi.qual, getattr(sig[1], 'lineno', '?')), sig[1])
         return None
 
@@ -258,6 +270,8 @@ class Interp:
     def stmt(self, st, env, mod):
         try:
             return self._stmt(st, env, mod)
+        except Raised as r:
+            return ('raise', r.node if r.node is not None else st)
         except Interrupt:
             raise
         except ZeroDivisionError as e:
@@ -721,14 +735,17 @@ class Interp:
             cond = alg.shift_index(cond, lab, k)
         for lab, ip in scatters:
             vp = alg.mk_fn('at', B(lab, vp), P(alg.array_fn('invperm', lab, ip)))
+        conv = old.conv
         if old.unit is not None and v.unit is not None and not (old.unit == v.unit) and not (vp.is_const()):
-            pass    # astropy converts on assignment; value semantics unchanged
+            # astropy converts on assignment; the physical value is unchanged, the stored number is a rounded conversion
+            conv = conv + (('assign', alg.show(v.unit, 30), alg.show(old.unit, 30), alg.show(vp, 60), getattr(t, 'lineno', 0)),)
         if old.dt in ('inherit', 'i') and v.dt == 'f':
             self.findings.append(Finding('dtype', 'a real-valued result is stored into %s, %s: the values are truncated to integers%s'
                                          % (up(node), 'a buffer created with the element type of a caller-supplied array' if old.dt == 'inherit' else 'an integer buffer',
                                             ' whenever the caller supplies integers' if old.dt == 'inherit' else ''), t, mod.path))
         newp = old.poly + cond * (vp - old.poly)
         newv = Arr(old.dims, newp, old.mask, old.unit, dt=old.dt)
+        newv.conv = conv
         setv(newv)
         _replace_aliases(env, old, newv)      # an in-place store is seen through every view of the buffer
 
@@ -818,6 +835,8 @@ class Interp:
                     return not tv
                 if isinstance(v, Arr) and _is_boolean(v.poly):
                     return v.with_(poly=alg.b_not(v.poly))
+                if isinstance(v, Arr) and v.ndim == 0 and v.mask is None:
+                    return Arr((), alg.mk_ind('==0', v.poly))        # not x  for a number: x == 0
             return Unk('unary %s' % type(e.op).__name__, e)
         if isinstance(e, ast.BinOp):
             return self.binop(e.op, self.expr(e.left, env, mod), self.expr(e.right, env, mod), e)
@@ -984,6 +1003,8 @@ class Interp:
             if v.name.startswith('astropy.units') and last in UNIT_ATOMS:
                 ua = unit_atom(last)
                 return Arr((), ua, unit=ua)
+            if v.name.startswith('astropy.units') and last in ('dimensionless_unscaled', 'one'):
+                return Arr((), num(1), unit=num(1))
             if v.name in ('numpy.inf', 'numpy.Inf', 'numpy.infty'):
                 return Arr((), alg.sym('INF'))
             if v.name in ('numpy.pi',):
@@ -1222,6 +1243,14 @@ class Interp:
                 vals.append(ix)
             else:
                 vals.append(self.expr(ix, env, mod))
+        if len(idx) == 1 and isinstance(vals[0], tuple) and not isinstance(idx[0], ast.Slice):
+            # a[t] with t a tuple built elsewhere: the same as a[t[0], t[1], ...]
+            vals = list(vals[0])
+            idx = [None] * len(vals)
+        for k_, x_ in enumerate(vals):
+            if isinstance(x_, _SliceVal):
+                # a slice object built with slice(lo, hi, step): the same as the literal lo:hi:step
+                vals[k_] = x_
         for k_, x_ in enumerate(vals):
             if isinstance(x_, _SelIdx):
                 if v.mask is not None and v.mask == x_.mask:
@@ -1232,7 +1261,7 @@ class Interp:
         if len(arrs) == 2:
             (k0, a0), (k1, a1) = arrs
             ar = _is_arange(a0.poly)
-            if ar is not None and k0 < v.ndim and k1 < v.ndim and all(isinstance(x, ast.Slice) or i in (k0, k1) for i, x in enumerate(vals)):
+            if ar is not None and k0 < v.ndim and k1 < v.ndim and all(isinstance(x, (ast.Slice, _SliceVal)) or i in (k0, k1) for i, x in enumerate(vals)):
                 if ar != v.dims[k0] or a1.dims != (v.dims[k0],):
                     raise LabelClash('gather index over %s paired with arange(%s) on array axes %s in %s' % (a1.dims, ar, v.dims, up(e)))
                 dims = [dd for k, dd in enumerate(v.dims) if k != k1]
@@ -1240,13 +1269,16 @@ class Interp:
         dims, ax, mask, poly = [], 0, v.mask, v.poly
         for k, ix in enumerate(idx):
             w = vals[k]
-            if isinstance(ix, ast.Slice):
+            if isinstance(ix, ast.Slice) or isinstance(w, _SliceVal):
                 if ax >= v.ndim:
                     return Unk('too many indices', e)
                 lab = v.dims[ax]
-                lo = self.expr(ix.lower, env, mod) if ix.lower else None
-                hi = self.expr(ix.upper, env, mod) if ix.upper else None
-                stp = self.expr(ix.step, env, mod) if ix.step else None
+                if isinstance(w, _SliceVal):
+                    lo, hi, stp = w.lo, w.hi, w.step
+                else:
+                    lo = self.expr(ix.lower, env, mod) if ix.lower else None
+                    hi = self.expr(ix.upper, env, mod) if ix.upper else None
+                    stp = self.expr(ix.step, env, mod) if ix.step else None
                 if lo == 0 and not isinstance(lo, bool):
                     lo = None
                 if stp == 1 and not isinstance(stp, bool):
@@ -1537,6 +1569,76 @@ class Interp:
                     return Unk('where', e)
                 d = bdims(bdims(c.dims, a.dims), b.dims)
                 return Arr(d, c.poly * a.poly + alg.b_not(c.poly) * b.poly, unit=a.unit)
+            if last in ('greater_equal', 'less_equal', 'greater', 'less', 'equal', 'not_equal') and len(args) == 2 and not kw:
+                op_ = {'greater_equal': ast.GtE, 'less_equal': ast.LtE, 'greater': ast.Gt, 'less': ast.Lt, 'equal': ast.Eq, 'not_equal': ast.NotEq}[last]()
+                env_ = {'__module__': mod, '_a': args[0], '_b': args[1]}
+                return self.compare(ast.Compare(left=ast.Name(id='_a', ctx=ast.Load()), ops=[op_], comparators=[ast.Name(id='_b', ctx=ast.Load())]), env_, mod)
+            if last == 'count_nonzero' and len(args) == 1 and not kw:
+                x_ = self._as_arr(args[0])
+                if isinstance(x_, Arr) and _is_boolean(x_.poly):
+                    return self._reduce(x_, None, 'sum', e)
+                if isinstance(x_, Arr):
+                    return self._reduce(x_.with_(poly=alg.b_not(alg.mk_ind('==0', x_.poly))), None, 'sum', e)
+                return Unk('count_nonzero', e)
+            if last in ('logical_and', 'logical_or') and len(args) == 2 and not kw:
+                return self.binop(ast.BitAnd() if last == 'logical_and' else ast.BitOr(), args[0], args[1], e)
+            if last == 'logical_not' and len(args) == 1:
+                x_ = self._as_arr(args[0])
+                return x_.with_(poly=alg.b_not(x_.poly)) if isinstance(x_, Arr) and _is_boolean(x_.poly) else Unk('logical_not', e)
+            if last in ('add', 'subtract', 'multiply', 'divide', 'true_divide') and len(args) == 2 and not kw:
+                return self.binop({'add': ast.Add(), 'subtract': ast.Sub(), 'multiply': ast.Mult(), 'divide': ast.Div(), 'true_divide': ast.Div()}[last], args[0], args[1], e)
+            if last == 'square' and len(args) == 1:
+                return self.binop(ast.Pow(), args[0], 2, e)
+            if last in ('maximum', 'minimum', 'fmax', 'fmin') and len(args) == 2 and not kw:
+                a_, b_ = self._as_arr(args[0]), self._as_arr(args[1])
+                if isinstance(a_, Unk) or isinstance(b_, Unk):
+                    return Unk(last, e)
+                d_ = bdims(a_.dims, b_.dims)
+                mk_ = _merge_mask(a_, b_)
+                if isinstance(mk_, Unk):
+                    return mk_
+                if last in ('maximum', 'fmax'):
+                    return Arr(d_, a_.poly + alg.lt(a_.poly, b_.poly) * (b_.poly - a_.poly), mk_, a_.unit if a_.unit is not None else b_.unit)
+                return Arr(d_, a_.poly + alg.lt(b_.poly, a_.poly) * (b_.poly - a_.poly), mk_, a_.unit if a_.unit is not None else b_.unit)
+            if last in ('full', 'full_like') and len(args) >= 2:
+                base = self.libcall('numpy.zeros' if last == 'full' else 'numpy.zeros_like', [args[0]], {k_: v_ for k_, v_ in kw.items() if k_ == 'dtype'}, e, mod)
+                fv = self._as_arr(args[1])
+                if isinstance(base, Arr) and isinstance(fv, Arr) and fv.ndim == 0:
+                    return Arr(base.dims, fv.poly, unit=fv.unit if fv.unit is not None else num(1), fresh=True, dt=base.dt if 'dtype' in kw else fv.dt)
+                return Unk('np.%s' % last, e)
+            if last == 'dot' and len(args) == 2 and not kw:
+                # contraction of the last axis of a with the first axis of b (1-D . 1-D, 2-D . 1-D, 1-D . 2-D, 2-D . 2-D)
+                a_, b_ = self._as_arr(args[0]), self._as_arr(args[1])
+                if isinstance(a_, Arr) and isinstance(b_, Arr) and a_.ndim >= 1 and b_.ndim >= 1 and a_.mask is None and b_.mask is None:
+                    la, lb = a_.dims[-1], b_.dims[0] if b_.ndim <= 2 else None
+                    if la is not None and la == lb and la not in a_.dims[:-1] and la not in b_.dims[1:]:
+                        return Arr(tuple(a_.dims[:-1]) + tuple(b_.dims[1:]), alg.sum_over(a_.poly * b_.poly, la), unit=_umul(a_.unit, b_.unit))
+                    if la is not None and lb is not None and la != lb:
+                        raise LabelClash('np.dot contracts axis %r of the first operand with axis %r of the second' % (la, lb))
+                return Unk('np.dot', e)
+            if last == 'take' and len(args) >= 2:
+                ax_ = kw.get('axis', args[2] if len(args) > 2 else None)
+                a_, ix_ = self._as_arr(args[0]), self._as_arr(args[1])
+                if isinstance(a_, Arr) and isinstance(ix_, Arr) and ix_.ndim == 1 and a_.mask is None and ix_.mask is None and (ax_ is None and a_.ndim == 1 or isinstance(ax_, int) and -a_.ndim <= ax_ < a_.ndim):
+                    k_ = 0 if ax_ is None else ax_ % a_.ndim
+                    lab_ = a_.dims[k_]
+                    if lab_ is not None and ix_.dims[0] not in [d for j_, d in enumerate(a_.dims) if j_ != k_]:
+                        dims_ = list(a_.dims)
+                        dims_[k_] = ix_.dims[0]
+                        return Arr(dims_, alg.mk_fn('at', B(lab_, a_.poly), P(ix_.poly)), unit=a_.unit)
+                return Unk('np.take', e)
+            if last == 'take_along_axis' and len(args) >= 2:
+                # out[i, 0, ...] = a[i, idx[i, 0], ...] for an index array with a length-1 axis in place of ``axis``
+                ax_ = kw.get('axis', args[2] if len(args) > 2 else None)
+                a_, ix_ = self._as_arr(args[0]), self._as_arr(args[1])
+                if isinstance(a_, Arr) and isinstance(ix_, Arr) and isinstance(ax_, int) and -a_.ndim <= ax_ < a_.ndim and ix_.ndim == a_.ndim and a_.mask is None and ix_.mask is None:
+                    k_ = ax_ % a_.ndim
+                    lab_ = a_.dims[k_]
+                    if lab_ is not None and ix_.dims[k_] is None and all(ix_.dims[j_] in (a_.dims[j_], None) for j_ in range(a_.ndim) if j_ != k_):
+                        dims_ = list(a_.dims)
+                        dims_[k_] = None
+                        return Arr(dims_, alg.mk_fn('at', B(lab_, a_.poly), P(ix_.poly)), unit=a_.unit)
+                return Unk('np.take_along_axis', e)
             if last == 'clip':
                 x, lo, hi = [self._as_arr(v) for v in (args[0], kw.get('a_min', args[1] if len(args) > 1 else None), kw.get('a_max', args[2] if len(args) > 2 else None))]
                 if any(isinstance(v, Unk) for v in (x, lo, hi)):
@@ -1664,6 +1766,31 @@ class Interp:
                 return Arr((), a.poly + alg.lt(a.poly, b.poly) * (b.poly - a.poly), unit=a.unit)
             if last == 'isinstance':
                 return self._isinstance(args[0], args[1], e)
+            if last == 'slice' and 1 <= len(args) <= 3 and not kw:
+                a_ = [None, None, None]
+                if len(args) == 1:
+                    a_[1] = args[0]
+                else:
+                    a_[:len(args)] = args
+                return _SliceVal(*a_)
+            if last in ('getattr', 'setattr', 'hasattr') and len(args) >= 2 and isinstance(args[0], Obj) and isinstance(args[1], str):
+                o_, n_ = args[0], args[1]
+                if last == 'setattr' and len(args) == 3:
+                    self.setattr(o_, n_, args[2], e, mod)
+                    return None
+                if last == 'hasattr':
+                    return n_ in o_.attrs or (o_.cls is not None and self.repo.find_member(o_.cls, n_) is not None)
+                if last == 'getattr':
+                    r_ = self.getattr(o_, n_, e, mod)
+                    if isinstance(r_, Unk) and len(args) == 3 and 'unknown attribute' in r_.why:
+                        return args[2]
+                    return r_
+            if last in ('getattr', 'setattr', 'delattr') and args and isinstance(args[0], Obj):
+                # attribute chosen by a name the analysis does not know: any attribute of the object may have changed
+                if last != 'getattr':
+                    for k_ in list(args[0].attrs):
+                        args[0].attrs[k_] = Unk('attribute possibly rebound by %s() with a computed name' % last, e)
+                return Unk('%s with a computed attribute name' % last, e)
             if last == 'bool' and len(args) == 1:
                 x = args[0]
                 if x is None or isinstance(x, (bool, int, float, str, list, tuple, dict)):
@@ -1782,7 +1909,10 @@ class Interp:
                     return Arr((), recv.poly * uu.poly.pow(-1), unit=num(1))
                 if isinstance(uu, Unk):
                     return recv.with_(unit=None)
-                return recv.with_(unit=uu.poly)       # same physical quantity, expressed in unit uu
+                r_ = recv.with_(unit=uu.poly)       # same physical quantity, expressed in unit uu
+                if recv.conv and recv.unit is not None and not (recv.unit == uu.poly):
+                    r_.conv = recv.conv + (('to', alg.show(recv.unit, 30), alg.show(uu.poly, 30), '', getattr(e, 'lineno', 0)),)
+                return r_
             if name == 'astype':
                 t_ = args[0] if args else kw.get('dtype')
                 tn = t_.name if isinstance(t_, Marker) else (t_.__name__ if isinstance(t_, type) else (t_ if isinstance(t_, str) else ''))
@@ -1858,6 +1988,7 @@ class _Interp1d:
     def __init__(self, x, y, opts):
         self.x, self.y, self.opts = x, y, opts
         self.queries = []
+        self.roundtrips = []      # a bound stored into the query in one unit, the query converted back before the (bounds-checked) look-up
 
     def __call__(self, q):
         if isinstance(q, Unk):
@@ -1865,6 +1996,10 @@ class _Interp1d:
         if not isinstance(q, Arr):
             return Unk('interp1d query %r' % (q,))
         self.queries.append(q)
+        if len(q.conv) >= 2 and not any(k_ in ('bounds_error', 'fill_value') for k_, _ in self.opts):
+            a_, b_ = q.conv[0], q.conv[-1]
+            if a_[0] == 'assign' and b_[0] == 'to' and a_[1] == b_[2]:
+                self.roundtrips.append((a_, b_))
         lab = self.x.dims[0]
         xs = _strip_unit(self.x)
         qs = _strip_unit(q)
@@ -1906,6 +2041,12 @@ class _WhereIdx:
         return 'sel:' + alg.show(self.mask.poly, 400)
 
 
+class _SliceVal:
+    """a slice object built at run time: slice(lo, hi, step)"""
+    def __init__(self, lo, hi, step):
+        self.lo, self.hi, self.step = lo, hi, step
+
+
 class _SelIdx:
     """integer positions counted within the compressed selection ``mask`` of axis ``label`` (e.g. argsort(x[mask]))"""
     def __init__(self, mask, label, what):
@@ -1934,7 +2075,8 @@ class LabelClash(Exception):
 
 BUILTINS = {'len', 'range', 'enumerate', 'int', 'float', 'min', 'max', 'isinstance', 'type', 'print', 'abs', 'list', 'tuple',
             'str', 'open', 'sorted', 'zip', 'dict', 'set', 'sum', 'any', 'all', 'bool', 'input', 'Exception', 'ValueError',
-            'TypeError', 'KeyError', 'IndexError', 'EOFError', 'AssertionError', 'AttributeError', 'object', 'NotImplemented'}
+            'TypeError', 'KeyError', 'IndexError', 'EOFError', 'AssertionError', 'AttributeError', 'object', 'NotImplemented',
+            'getattr', 'setattr', 'hasattr', 'delattr', 'slice', 'reversed', 'map', 'filter', 'round', 'divmod', 'iter', 'next', 'format', 'repr', 'id', 'callable', 'vars'}
 
 
 def decide_with(interp, test, env, mod, facts=None, consts=None):
